@@ -53,8 +53,19 @@ CHECKS = {
  "C17": ("exploration", "proptest-generated long-data histories across statements and parameter indexes, plus enumerated multi-packet chunks; model-based oracle (pending[stmt][param])",
          "Generated search over interleavings of chunks (sizes 0 to 70000, one >= 2^24 bytes enumerated) for several statements and parameters with executions whose long-data parameters are omitted inline; the addressed parameters must arrive as the in-order concatenation, everything else as encoded, exactly once, never in another statement.",
          "Long data is addressed to string-typed, non-NULL parameters as client libraries do."),
+ "C11": ("exploration", "proptest-generated handshake responses (4.1 and 3.20 layouts, random capability masks, arbitrary non-NUL user names, trailing bytes, sequence ids) x TLS configured or not x shim accepts or rejects x pipelined commands; oracle = reference greeting decoder (+ mysql_common::HandshakePacket) and the ordered callback log",
+         "Generated search over the handshake domain the property lists; the greeting must be a well-formed protocol-10 greeting with the right capability bits, flushed before the first read; after_authentication must run exactly once, first, with the exact user bytes; a rejection must yield ERR 1045/28000, the shim's own error from run_on and no command callback even when commands are already pipelined.",
+         "The SSL-requested-and-configured case is C18's."),
+ "C19": ("fault_enumeration", "proptest-generated conversations, each re-run with every fault point enumerated (EOF after k bytes, one-off / persistent error and zero-length write at every transport operation, shim error at every callback); oracle = Ok/Err classification, panic capture, prefix relation of callback logs",
+         "For each generated conversation the fault space is enumerated exhaustively from its own fault-free operation trace (about 500 faulted runs per conversation, ~200000 per quick run): connection end is Ok exactly at command boundaries after the handshake, every transport fault yields Err (never Ok, never a panic) with no callback started after the fault, shim errors come back unchanged.",
+         "Injected errors are of a kind std does not retry (not Interrupted); faults are injected in plaintext conversations."),
+ "C20": ("exploration", "exhaustive enumeration of short payloads / raw streams / parameter-block bodies over reduced alphabets, proptest-driven grammar-aware mutation of valid conversations and random streams, enumerated fragment-sequence-id patterns (coverage-guided libFuzzer campaigns in the thorough tier); oracle = no panic, no wedge (read budget), output is a sequence of well-formed packets",
+         "All strings up to length 4-5 over alphabets of command bytes and boundary values in four positions (as command, as handshake, unframed after/instead of the handshake) and as execute parameter blocks for four declared parameter counts; hundreds of thousands of mutated conversations; any panic is keyed by a (file, source-line text, message) signature so known sites and new ones are told apart.",
+         "Never establishes absence; a wedge is detected as reads after end-of-stream exceeding a budget, not by a clock."),
 }
-NOT_YET = {}
+NOT_YET = {
+ "C18": "check under construction (TLS client embedded in the scripted transport); see DESIGN.md section 2, C18",
+}
 
 def main():
     props = [json.loads(l) for l in open(os.path.join(HERE, "properties.jsonl"))]
